@@ -96,6 +96,9 @@ namespace igris
             uint16_t size;
             igris::deserialize(keeper, size);
 
+            // the decoded value replaces whatever the target held (a member
+            // with a non-empty default initialiser, a re-used object)
+            vec.clear();
             for (int i = 0; i < size; i++)
             {
                 T value;
@@ -124,6 +127,7 @@ namespace igris
             uint16_t size;
             igris::deserialize(keeper, size);
 
+            map.clear(); // replace, do not merge into, the previous content
             for (int i = 0; i < size; i++)
             {
                 // typename std::map<K,T>::value_type pair;
